@@ -549,6 +549,8 @@ func Explore(sc Scenario, maxBound int, budget int) Result {
 }
 
 func judge(sc Scenario, x *Execution, res *Result) {
+	// signature of the execution before any oracle looks at (or annotates) it
+	sig := fmt.Sprint(x.Obs) + fmt.Sprint(x.Races) + x.Deadlock
 	if len(x.Points) > res.MaxPoints {
 		res.MaxPoints = len(x.Points)
 	}
@@ -609,12 +611,12 @@ func judge(sc Scenario, x *Execution, res *Result) {
 		for k := 0; k < 2; k++ {
 			sc.Setup()
 			y := run(sc.Threads(), x.Choices, 10000)
-			if fmt.Sprint(y.Obs) != fmt.Sprint(x.Obs) || fmt.Sprint(y.Races) != fmt.Sprint(x.Races) || y.Deadlock != x.Deadlock {
+			if fmt.Sprint(y.Obs)+fmt.Sprint(y.Races)+y.Deadlock != sig {
 				ok = false
 			}
 		}
 		if !ok {
-			p = Problem{Key: "harness/nondeterministic-replay", What: "replaying the failing schedule gave different observations: " + p.What}
+			p = Problem{Key: "state-survives-executions-or-nondeterminism", What: "replaying the failing schedule from a freshly set-up state gave different observations (state outside the harness's Setup survives an execution, or the code is nondeterministic); first failure: " + p.What}
 		}
 		res.Findings[p.Key] = &Finding{Problem: p, Scenario: sc.Name, Choices: append([]int(nil), x.Choices...), Trace: append([]string(nil), x.Trace...), Count: 1}
 	}
